@@ -3255,3 +3255,315 @@ func ruleNestedAdvanceTargetsJoinLevel(r *Report, rule string) {
 		undecidedf("%s: no child Advance call found", fi.Name)
 	}
 }
+
+// ruleRegisterAllInDependencyOrder (K5): customAnalysis.registerAll re-creates
+// the custom analysis components of a mapping on every open.  A component kind
+// whose constructors look other kinds up in the cache (analyzers need char
+// filters, tokenizers and token filters; token filters need token maps;
+// synonym sources need analyzers; ...) has to be defined after them.  The
+// dependency relation is derived from the code: for every constructor passed to
+// registry.Register<Kind>, the `cache.<OtherKind>Named(...)` calls it (or a
+// same-package helper, one level) makes.
+func ruleRegisterAllInDependencyOrder(r *Report, rule string) {
+	p := r.P
+	kinds := []string{"CharFilter", "Tokenizer", "TokenMap", "TokenFilter", "Analyzer", "DateTimeParser", "SynonymSource"}
+	isKind := map[string]bool{}
+	for _, k := range kinds {
+		isKind[k] = true
+	}
+	deps := map[string]map[string]string{} // kind -> needed kind -> witness
+	var scan func(fi *FuncInfo, kind string, depth int, seen map[*FuncInfo]bool)
+	scan = func(fi *FuncInfo, kind string, depth int, seen map[*FuncInfo]bool) {
+		if fi == nil || fi.Decl.Body == nil || seen[fi] {
+			return
+		}
+		seen[fi] = true
+		info := fi.Pkg.TypesInfo
+		for _, c := range callsDeep(fi.Decl.Body) {
+			f := callee(info, c)
+			if f == nil {
+				continue
+			}
+			if strings.HasSuffix(f.Name(), "Named") && f.Pkg() != nil && strings.HasSuffix(f.Pkg().Path(), "/registry") {
+				need := strings.TrimSuffix(f.Name(), "Named")
+				if isKind[need] && need != kind {
+					if deps[kind] == nil {
+						deps[kind] = map[string]string{}
+					}
+					if deps[kind][need] == "" {
+						deps[kind][need] = fi.Name
+					}
+				}
+			} else if depth < 1 && f.Pkg() == fi.Pkg.Types {
+				scan(p.funcs[funcName(f)], kind, depth+1, seen)
+			}
+		}
+	}
+	nCtor := 0
+	for _, fi := range p.flist {
+		if fi.Decl.Body == nil {
+			continue
+		}
+		info := fi.Pkg.TypesInfo
+		for _, c := range callsDeep(fi.Decl.Body) {
+			f := callee(info, c)
+			if f == nil || f.Pkg() == nil || !strings.HasSuffix(f.Pkg().Path(), "/registry") || !strings.HasPrefix(f.Name(), "Register") || len(c.Args) != 2 {
+				continue
+			}
+			kind := strings.TrimPrefix(f.Name(), "Register")
+			if !isKind[kind] {
+				continue
+			}
+			if ctor, ok := objOf(info, c.Args[1]).(*types.Func); ok {
+				nCtor++
+				scan(p.funcs[funcName(ctor)], kind, 0, map[*FuncInfo]bool{})
+			}
+		}
+	}
+	if nCtor < 50 {
+		undecidedf("only %d registered analysis constructors found", nCtor)
+	}
+	fi := p.MustFunc("mapping.(*customAnalysis).registerAll")
+	r.Fn(fi)
+	info := fi.Pkg.TypesInfo
+	pos := map[string]token.Pos{}
+	for _, c := range callsDeep(fi.Decl.Body) {
+		if f := callee(info, c); f != nil && strings.HasPrefix(f.Name(), "Define") {
+			k := strings.TrimPrefix(f.Name(), "Define")
+			if isKind[k] {
+				if _, ok := pos[k]; !ok {
+					pos[k] = c.Pos()
+				}
+			}
+		}
+	}
+	for _, k := range kinds {
+		if _, ok := pos[k]; !ok {
+			undecidedf("registerAll does not define kind %s", k)
+		}
+	}
+	n := 0
+	for _, k := range kinds {
+		var needs []string
+		for need := range deps[k] {
+			needs = append(needs, need)
+		}
+		sort.Strings(needs)
+		for _, need := range needs {
+			n++
+			r.Ob(rule, "registerAll/"+need+"-defined-before-"+k, pos[k], pos[need] < pos[k], "constructors of kind "+k+" look up "+need+" components in the cache (e.g. "+deps[k][need]+"), so a mapping's custom "+need+" definitions must be registered before its "+k+" definitions when the mapping is rebuilt from JSON; in the wrong order a saved mapping that is valid when built through the API fails to reopen")
+		}
+	}
+	if n < 4 {
+		undecidedf("only %d dependencies between analysis component kinds were derived", n)
+	}
+}
+
+// ruleCustomComponentRecordedAfterDefine (K5, siblings): the AddCustom* methods
+// of IndexMappingImpl keep two views of a custom component: the live registry
+// cache (used for analysis now) and CustomAnalysis (serialised, used to rebuild
+// the cache on reopen).  The config is recorded for serialisation only after
+// the cache accepted the definition, on the path where the Define call's error
+// is nil; recording a refused definition makes the reopened mapping differ from
+// the live one (or fail to open).
+func ruleCustomComponentRecordedAfterDefine(r *Report, rule string) {
+	p := r.P
+	n := 0
+	for _, fi := range p.funcsInPkg("mapping") {
+		if fi.Decl.Body == nil || fi.Decl.Recv == nil || !strings.HasPrefix(fi.Obj.Name(), "AddCustom") {
+			continue
+		}
+		info := fi.Pkg.TypesInfo
+		g := buildCFG(info, fi.Decl.Body)
+		var define *ast.AssignStmt
+		var errObj types.Object
+		ast.Inspect(fi.Decl.Body, func(x ast.Node) bool {
+			as, ok := x.(*ast.AssignStmt)
+			if !ok || len(as.Rhs) != 1 {
+				return true
+			}
+			if c, ok := as.Rhs[0].(*ast.CallExpr); ok {
+				if f := callee(info, c); f != nil && strings.HasPrefix(f.Name(), "Define") {
+					define = as
+					errObj = objOf(info, as.Lhs[len(as.Lhs)-1])
+				}
+			}
+			return true
+		})
+		if define == nil {
+			continue
+		}
+		ast.Inspect(fi.Decl.Body, func(x ast.Node) bool {
+			as, ok := x.(*ast.AssignStmt)
+			if !ok || len(as.Lhs) != 1 {
+				return true
+			}
+			ix, ok := ast.Unparen(as.Lhs[0]).(*ast.IndexExpr)
+			if !ok {
+				return true
+			}
+			sel, ok := ast.Unparen(ix.X).(*ast.SelectorExpr)
+			if !ok || !isField(info, sel.X, "IndexMappingImpl", "CustomAnalysis") {
+				return true
+			}
+			n++
+			r.Fn(fi)
+			okErr := false
+			for _, fct := range g.GuardsOf(as) {
+				if e, isEq, isNil := nilTest(info, fct.Expr); isNil && objOf(info, e) == errObj && isEq == fct.Truth {
+					okErr = true
+				}
+			}
+			r.Ob(rule, fi.Name+"/recorded-only-after-successful-Define", as.Pos(), g.DominatesNode(define, as) && okErr, "`"+exprStr(as.Lhs[0])+" = ...` must run after the cache accepted the definition and only when its error is nil; otherwise a definition the live mapping does not use is what gets serialised and re-registered on the next open")
+			return true
+		})
+	}
+	if n < 6 {
+		undecidedf("AddCustom* rule matched %d recordings", n)
+	}
+}
+
+// ruleTempDecoderDefaultsOnAbsenceOnly (K9): an UnmarshalJSON that decodes into
+// a temporary struct and then fills in defaults must decide "the key was
+// absent" by a nil test of the temporary's pointer/slice/RawMessage field.  A
+// `len(temp.F) == 0` test also fires for a key that is present with an empty
+// value (`"sort": []`), which MarshalJSON does write when the field has no
+// omitempty: the explicit empty value is replaced by the default on the way
+// back in.
+func ruleTempDecoderDefaultsOnAbsenceOnly(r *Report, rule string, pkgs ...string) {
+	p := r.P
+	n := 0
+	for _, pk := range pkgs {
+		for _, fi := range p.funcsInPkg(pk) {
+			if fi.Decl.Body == nil || fi.Obj.Name() != "UnmarshalJSON" {
+				continue
+			}
+			info := fi.Pkg.TypesInfo
+			// temporaries: local struct variables whose address is passed to an Unmarshal call
+			temps := map[types.Object]bool{}
+			for _, c := range callsDeep(fi.Decl.Body) {
+				nm := calleeShortName(info, c)
+				if !strings.Contains(nm, "Unmarshal") || len(c.Args) < 2 {
+					continue
+				}
+				if u, ok := ast.Unparen(c.Args[1]).(*ast.UnaryExpr); ok && u.Op == token.AND {
+					if o := objOf(info, u.X); o != nil {
+						if _, isStruct := o.Type().Underlying().(*types.Struct); isStruct {
+							temps[o] = true
+						}
+					}
+				}
+			}
+			if len(temps) == 0 {
+				continue
+			}
+			ast.Inspect(fi.Decl.Body, func(x ast.Node) bool {
+				is, ok := x.(*ast.IfStmt)
+				if !ok {
+					return true
+				}
+				var tests []ast.Expr
+				var facts []Fact
+				splitCondAny(is.Cond, &facts)
+				for _, f := range facts {
+					tests = append(tests, f.Expr)
+				}
+				for _, tcond := range tests {
+					be, ok := ast.Unparen(tcond).(*ast.BinaryExpr)
+					if !ok {
+						continue
+					}
+					// nil test of temp.F : fine, counted
+					if e, _, isNil := nilTest(info, be); isNil {
+						if sel, ok := ast.Unparen(e).(*ast.SelectorExpr); ok && temps[objOf(info, sel.X)] {
+							n++
+							r.Fn(fi)
+							r.Ob(rule, fi.Name+"/"+exprStr(sel)+"-absence-by-nil-test", be.Pos(), true, "absence of the key is decided by a nil test")
+						}
+						continue
+					}
+					// len(temp.F) == 0 / != 0 / < 1 ...
+					c, ok := ast.Unparen(be.X).(*ast.CallExpr)
+					if !ok || calleeBuiltin(info, c) != "len" || len(c.Args) != 1 {
+						continue
+					}
+					sel, ok := ast.Unparen(c.Args[0]).(*ast.SelectorExpr)
+					if !ok || !temps[objOf(info, sel.X)] {
+						continue
+					}
+					// only pointer-ish / slice fields can tell absent from empty
+					switch info.TypeOf(sel).Underlying().(type) {
+					case *types.Slice, *types.Map:
+					default:
+						continue
+					}
+					n++
+					r.Fn(fi)
+					r.Ob(rule, fi.Name+"/"+exprStr(sel)+"-absence-by-nil-test", be.Pos(), false, "`"+exprStr(be)+"` treats a key that is present with an empty value like an absent key; the branch it guards substitutes a default, so an explicitly empty "+sel.Sel.Name+" does not survive a JSON round trip (test `"+exprStr(sel)+" == nil` instead)")
+				}
+				return true
+			})
+		}
+	}
+	if n < 3 {
+		undecidedf("temp-decoder rule matched %d absence tests", n)
+	}
+}
+
+// ruleFoldBufferCoversWorstCase (K11): foldToASCII writes its output into a
+// caller-provided buffer and only re-slices it (it never appends), so the
+// capacity the caller reserves must cover the worst expansion: (max number of
+// output runes any single case of the fold emits) x (number of input runes).
+// Both numbers are read from the code: the widest case clause of foldToASCII
+// and the capacity expression of the make() in Filter.
+func ruleFoldBufferCoversWorstCase(r *Report, rule string) {
+	p := r.P
+	fold := p.MustFunc("analysis/char/asciifolding.foldToASCII")
+	filt := p.MustFunc("analysis/char/asciifolding.(*AsciiFoldingFilter).Filter")
+	r.Fn(fold)
+	r.Fn(filt)
+	maxFold := 0
+	ast.Inspect(fold.Decl.Body, func(x ast.Node) bool {
+		cc, ok := x.(*ast.CaseClause)
+		if !ok {
+			return true
+		}
+		k := 0
+		for _, st := range cc.Body {
+			ast.Inspect(st, func(y ast.Node) bool {
+				if inc, ok := y.(*ast.IncDecStmt); ok && inc.Tok == token.INC && exprStr(inc.X) == "outputPos" {
+					k++
+				}
+				return true
+			})
+		}
+		if k > maxFold {
+			maxFold = k
+		}
+		return true
+	})
+	if maxFold < 2 {
+		undecidedf("foldToASCII: widest case writes %d runes (pattern not recognised)", maxFold)
+	}
+	info := filt.Pkg.TypesInfo
+	n := 0
+	for _, c := range builtinCalls(info, filt.Decl.Body, "make") {
+		if len(c.Args) != 3 {
+			continue
+		}
+		n++
+		ok, got := false, exprStr(c.Args[2])
+		if be, isB := ast.Unparen(c.Args[2]).(*ast.BinaryExpr); isB && be.Op == token.MUL {
+			if k, isC := intConst(info, be.Y); isC && k >= maxFold && exprStr(be.X) == exprStr(c.Args[1]) {
+				ok = true
+			}
+			if k, isC := intConst(info, be.X); isC && k >= maxFold && exprStr(be.Y) == exprStr(c.Args[1]) {
+				ok = true
+			}
+		}
+		r.Ob(rule, filt.Name+"/output-capacity-covers-widest-fold", c.Pos(), ok, fmt.Sprintf("the widest case of foldToASCII emits %d runes for one input rune and the function only re-slices its output buffer; the capacity reserved here (%s) must be at least %d x the number of input runes, otherwise inputs made of such runes panic with slice bounds out of range", maxFold, got, maxFold))
+	}
+	if n < 1 {
+		undecidedf("Filter: output buffer allocation not found")
+	}
+}
